@@ -27,7 +27,7 @@ def drive(rep, pid, tier, seed, unpack):
     r = vlib.tlc_design("Catar", cfg, work, workers=4, timeout=3000)
     rep.add_tlc("Catar: BSTOrder(n) is a complete binary search tree in array form for all n (ASSUME)", r)
     trace = os.path.join(work, "trace.ndjson")
-    p = vlib.sh("%s -seed %d -n %d -fanout %d -unpack=%s -out %s -dir %s -repo %s" % (binp, seed, (400 if thorough else 40), (400 if thorough else 64),
+    p = vlib.sh("%s -seed %d -n %d -fanout %d -unpack=%s -out %s -dir %s -repo %s" % (binp, seed, (120 if thorough else 40), (200 if thorough else 64),
                 "true" if unpack else "false", trace, os.path.join(work, "data"), vlib.REPO), timeout=3000, check=False)
     if p.returncode != 0:
         raise vlib.Infra("driver c13 failed:\n" + p.stdout[-3000:])
@@ -68,7 +68,7 @@ def run(rep, tier, seed):
     cli_common.run(rep, vlib.workdir("C13-cli"), seed, "tar", tier == "thorough")
     rep.rule = ("case = random tree of 5-45 nodes (nesting <= 4, fan-out <= 8, names of arbitrary bytes / with spaces / 50-250 characters, files of 0 / 1 / up to 3000 "
                 "bytes, symlinks incl. dangling and absolute, char and block devices, 10 modes incl. set-id/sticky, 6 owners up to 2^31-1, 6 mtimes with ns, user "
-                "xattrs), plus one flat directory for every fan-out 0..64 (0..400 thorough), each packed from disk and from an independent tar stream; "
+                "xattrs), plus one flat directory for every fan-out 0..64 (0..200 thorough), each packed from disk and from an independent tar stream; "
                 "casync fixtures; distinct = different element sequence; non-trivial = >= 3 nodes")
 
 
